@@ -172,7 +172,11 @@ func marshalCase(t *gobinlog.Transaction, class string) Case {
 func weirdString(r *RNG, n int) string {
 	b := make([]byte, 0, n)
 	for len(b) < n {
-		switch r.Intn(9) {
+		switch r.Intn(10) {
+		case 9:
+			// text that already looks like JSON escapes (a document stored in a column, produced by an HTML-escaping
+			// encoder): literal backslash sequences must survive as data, whatever post-processing the marshaler does
+			b = append(b, []byte([]string{`\u003c`, `\u003e`, `\u0026`, `\u2028`, `\n`, `\"`, `\\`, `\u0000`, `{"a":"\u003cb\u003e"}`, `\ud800`, `%s`, `%!d(MISSING)`}[r.Intn(12)])...)
 		case 0:
 			b = append(b, byte(r.Intn(32))) // control
 		case 1:
